@@ -175,6 +175,21 @@ def finish_full_run(ctx, full):
 # region (2) translator: the regular expressions of validation.py
 
 
+# MultiConditionChecker: attribute `pattern_<field>` of the validator -> field of Rules.MccPatterns (True: used through its groups)
+MCC_FIELDS = (
+	('operator_bool', False), ('operator_bool_with_explicit', False), ('test', False), ('test_class', False), ('validation_result', True),
+	('missing_explicit_ctor', True), ('enum', False), ('enum_class', False), ('coerce', True), ('define_tests', False), ('define_test_traits', False),
+	('file_size', False), ('file_size_reference_allowed', False), ('file_size_cast', False), ('test_expected_size', False),
+	('test_memcmp_assert', False), ('test_bool_assert', False), ('test_bool_assert_allowed', False), ('declare_macro_no_params', False),
+	('single_line_function', False), ('test_single_line_function', False), ('test_name_if', False), ('test_name_if_exclusions', False),
+	('header_comment', False), ('doxygen_comment', False), ('auto_context_param', False), ('gets_sets_doc', False),
+	('gets_sets_doc_with_article', False), ('trailing_operator', False), ('struct_assignment', True))
+# the checks of MultiConditionChecker.errors, in the order of the model (Rules.mccChecks)
+MCC_FIELDS_CHECKS = (
+	'check_test_line', 'check_explicit_operator_bool', 'check_validation_result', 'check_explicit_ctor', 'check_enum_class', 'check_coerce',
+	'check_define_tests', 'check_file_size', 'check_test_expected_size', 'check_test_asserts', 'check_declare_macro_no_params',
+	'check_single_line_function', 'check_test_name_if', 'check_header_comment', 'check_cpp_doxygen_comment', 'check_auto_context_param',
+	'check_gets_sets_documentation', 'check_trailing_operator', 'check_struct_assignment')
 VALIDATOR_PATTERNS = (
 	'[[type(v).__name__, name, ['
 	'[p.pattern, p.flags, m if isinstance(m, str) else None] for p, m in ('
@@ -197,7 +212,8 @@ def extract_regexes():
 	from translate import pyregex, pyruntime  # pylint: disable=import-outside-toplevel
 	limit = '[v.line_length_limit for v in create_validators() if hasattr(v, "line_length_limit")]'
 	digest = '[v.expected_hash for v in create_validators() if hasattr(v, "expected_hash")]'
-	answers = pyruntime.values(REPO, 'validation', [VALIDATOR_PATTERNS, limit, digest])
+	mcc_messages = '[list(v.errors.values()) for v in create_validators() if "MultiConditionChecker" == type(v).__name__]'
+	answers = pyruntime.values(REPO, 'validation', [VALIDATOR_PATTERNS, limit, digest, mcc_messages])
 	entries = []
 	problems = []
 	for owner, attribute, patterns in answers[VALIDATOR_PATTERNS]:
@@ -229,6 +245,9 @@ def extract_regexes():
 	if 1 != len(hashes):
 		problems.append(f'licence digest of the validators: {answers[digest]} (expected exactly one)')
 	constants['copyrightSha1Hex'] = hashes[0].upper() if hashes else ''
+	constants['mccMessages'] = answers[mcc_messages][0] if 1 == len(answers[mcc_messages]) else []
+	if len(constants['mccMessages']) != len(MCC_FIELDS_CHECKS):
+		problems.append(f'MultiConditionChecker has {len(constants["mccMessages"])} checks (the model has {len(MCC_FIELDS_CHECKS)})')
 	if not typo_count:
 		problems.append('no validator with a typo list (a dict keyed by compiled patterns) was found')
 	_REGEX_CACHE[REPO] = (kept, typo_count, constants)
@@ -271,6 +290,18 @@ def _translate():
 		return f'  -- {entry["id"]}: {entry["owner"]} {entry["source"]!r}\n  (({pyregex.lean_re(entry["ast"])}), {pyregex.lean_chars(entry["witness"])})'
 
 	hashes = [constants['copyrightSha1Hex']] if constants['copyrightSha1Hex'] else []
+	by_attribute = {entry['attribute']: entry for entry in entries if 'MultiConditionChecker' == entry['owner']}
+	fields = []
+	for field, with_groups in MCC_FIELDS:
+		entry = by_attribute.get('pattern_' + field)
+		if entry is None:
+			problems.append(f'translator: MultiConditionChecker has no compiled pattern in attribute pattern_{field}')
+			fields.append(f'  {field} := .cls false []')
+		else:
+			fields.append(f'  -- {entry["source"]!r}\n  {field} := {pyregex.lean_cre(entry["ast"]) if with_groups else pyregex.lean_re(entry["ast"])}')
+	mcc_text = (
+		'/-- the patterns of MultiConditionChecker, by attribute -/\n'
+		'def mccPatterns : SymbolVerif.Lint.Rules.MccPatterns where\n' + '\n'.join(fields) + '\n')
 	deps = parse_deps_config()
 	names = sorted({name for src, dst in deps['lines'] for name in (src, dst)} | {name for values in deps['defines'].values() for name in values})
 	for name in names:
@@ -287,12 +318,14 @@ def _translate():
 	text = (
 		'/- generated by harness/c19.py from linters/cpp/validation.py and linters/cpp/deps.config; do not edit -/\n'
 		'import SymbolVerif.Model.Lint.Regex\n'
+		'import SymbolVerif.Model.Lint.Validators\n'
 		'namespace SymbolVerif.Generated.Lint\n'
 		'open SymbolVerif.Lint.Regex\n'
 		'/-- the typo list: (pattern, witness) -/\n'
 		'def typoTable : List (RE × List Char) := [\n' + ',\n'.join(row(entry) for entry in entries[:typo_count]) + ']\n'
 		'/-- every other compiled pattern the validators hold: (pattern, witness) -/\n'
 		'def validatorTable : List (RE × List Char) := [\n' + ',\n'.join(row(entry) for entry in entries[typo_count:]) + ']\n'
+		+ mcc_text +
 		f'def lineLengthLimit : Nat := {constants["lineLengthLimit"]}\n'
 		f'def copyrightSha1Hex : String := "{hashes[0] if hashes else ""}"\n'
 		+ deps_text +
@@ -788,8 +821,9 @@ class ForwardDeclarationSwap(Family):
 class TextEdit(Family):
 	"""Replaces text matched by `find` with `replacement` on a line where that provokes one rule."""
 
-	def __init__(self, name, find, replacement, group, kind, line_filter=None):
+	def __init__(self, name, find, replacement, group, kind, line_filter=None, report_first_line=False):
 		self.name = name
+		self.report_first_line = report_first_line
 		self.find = re.compile(find)
 		self.replacement = replacement
 		self.group = group
@@ -804,7 +838,7 @@ class TextEdit(Family):
 	def apply(self, lines, site, rng):
 		new_line = self.find.sub(self.replacement, lines[site], count=1)
 		return _replace(lines, site, new_line), {
-			'group': self.group, 'lineno': site + 1 + new_line.count('\n'), 'kind': self.kind, 'seeded_line': new_line}
+			'group': self.group, 'lineno': site + 1 + (0 if self.report_first_line else new_line.count('\n')), 'kind': self.kind, 'seeded_line': new_line}
 
 
 SINGLE_REGEX_VALIDATORS = {
@@ -835,6 +869,18 @@ def build_catalogue(entries, constants):
 			lambda line, _: True),
 		TextEdit('formatting:catch-on-own-line', r'^(\t+)} catch ', r'\1}\n\1catch ', 'catchAndClosingTryBraceOnSeparateLines', None),
 		TextEdit('formatting:enum-not-scoped', r'\benum class ', 'enum ', 'multiConditionChecker', 'use enum class instead of enum'),
+		TextEdit(
+			'multi-condition:operator-bool-not-explicit', r'\bexplicit operator bool', 'operator bool', 'multiConditionChecker',
+			'Missing explicit before operator bool'),
+		TextEdit(
+			'multi-condition:doxygen-comment-in-cpp', r'^(\t*)// ', r'\1/// ', 'multiConditionChecker', '/// unexpected in cpp file',
+			lambda line, relpath: relpath.endswith('.cpp') and 'region' not in line),
+		TextEdit(
+			'multi-condition:test-without-test-class', r'^(\t+)TEST\(TEST_CLASS, ', r'\1TEST(Seeded, ', 'multiConditionChecker', 'TEST should use TEST_CLASS',
+			lambda line, relpath: line.startswith('\t') and 'TEST_NAME' not in line and '##' not in line and not relpath.endswith('Stress.h')),
+		TextEdit(
+			'single-line:call-split-over-two-lines', r'^(\t+)(\w[\w:.>-]*)\((\w[\w, ]*)\);$', r'\1\2(\n\1\t\t\3);', 'singleLine',
+			'block fits in a single line', lambda line, _: 'return' not in line, report_first_line=True),
 		TextEdit(
 			'formatting:macro-semicolon', r'^(\t+)(DEFINE_[A-Z_]+_TESTS?|MAKE_[A-Z_]+_TESTS?)\(([^()]*)\)$', r'\1\2(\3);', 'macroSemicolonChecker', None,
 			lambda line, _: not any(word in line for word in (
@@ -1034,7 +1080,7 @@ def run_chunk(cases):
 			if silent:
 				result['failures'].append(('property', f'undoing the edit does not restore silence: {silent[:4]}'))
 			result['relinted'] = True
-		result['modelled'] = {'header': relpath.endswith('.h'), 'text': seeded, 'reports': alone} if case.get('model') else None
+		result['modelled'] = {'path': relpath, 'text': seeded, 'reports': alone} if case.get('model') else None
 		results.append(result)
 	if previous is not None:
 		_write(previous[1]['relpath'], _original(previous[1]['relpath']))
@@ -1276,10 +1322,14 @@ def modelled_view(reports, entries):
 					out.append(f'{name}:{lineno}')
 		elif 'nameTypo' == group:
 			out.append(f'typo[{kind}]:{lineno}')
+		elif 'singleLine' == group:
+			out.append(f'singleLine:{lineno}')
+		elif 'multiConditionChecker' == group:
+			out.append(f'mcc[{kind}]:{lineno}')
 	return sorted(out)
 
 
-def model_view(answer, entries):
+def model_view(answer, entries, mcc_messages=()):
 	if '-' == answer:
 		return []
 	out = []
@@ -1287,6 +1337,8 @@ def model_view(answer, entries):
 		name, lineno = item.split(':')
 		if name.startswith('typo'):
 			name = f'typo[{entries[int(name[4:])]["message"][:160]}]'
+		elif name.startswith('mcc'):
+			name = f'mcc[{mcc_messages[int(name[3:])][:160]}]'
 		out.append(f'{name}:{lineno}')
 	return sorted(out)
 
@@ -1497,11 +1549,11 @@ def run(ctx):
 		if ctx.driver:
 			model_requests.sort(key=lambda item: 0 if item[0].get('context') in ('prev:backslash', 'in:macro') else 1)  # those first (stable)
 			for case, modelled in model_requests[:ctx.scale(120, 1500)]:
-				answer = ctx.driver.ask(f'lint {1 if modelled["header"] else 0} {sx(modelled["text"])}')
+				answer = ctx.driver.ask(f'lint {sx(modelled["path"])} {sx(modelled["text"])}')
 				ctx.count('model-lint:seeded-files')
-				if model_view(answer, entries) != modelled_view(modelled['reports'], entries):
+				if model_view(answer, entries, constants['mccMessages']) != modelled_view(modelled['reports'], entries):
 					ctx.fail(
-						'corr', f'{case["name"]} in {case["relpath"]}: modelled reports differ: model {model_view(answer, entries)[:6]}, '
+						'corr', f'{case["name"]} in {case["relpath"]}: modelled reports differ: model {model_view(answer, entries, constants["mccMessages"])[:6]}, '
 						f'implementation {modelled_view(modelled["reports"], entries)[:6]}', {'kind': 'seeded', 'case': case, 'model': answer[:300]})
 			for relpath in rng.sample(files, ctx.scale(30, 300)):
 				with open(os.path.join(base, relpath), 'rt', encoding='utf8') as infile:
@@ -1509,11 +1561,14 @@ def run(ctx):
 				if not text.isascii():
 					continue
 				ctx.count('model-lint:conforming-files')
-				answer = ctx.driver.ask(f'lint {1 if relpath.endswith(".h") else 0} {sx(text)}')
+				answer = ctx.driver.ask(f'lint {sx(relpath)} {sx(text)}')
 				if '-' != answer:
 					ctx.fail('corr', f'the model is not silent on the conforming file {relpath}: {answer[:200]}', {'kind': 'model-silent', 'file': relpath})
 				ctx.case(('model-silent', relpath), None)
 		ctx.count('seconds:model-lint', int(time.time() - mark))
+		mark = time.time()
+		check_validator_models(ctx, entries, constants, lines)
+		ctx.count('seconds:validator-models', int(time.time() - mark))
 		check_frozen_catalogue(ctx)
 		ctx.count('regex:table-entries', len(entries))
 		ctx.count('regex:typo-entries', typo_count)
@@ -1761,6 +1816,105 @@ def check_dependencies_exhaustively(ctx, pool, oracle, universe):
 						break
 	if wrongly_allowed:
 		ctx.count('deps:pairs-allowed-against-deps.config', wrongly_allowed)
+
+
+# endregion
+
+
+# region strip_comments_and_strings, MultiConditionChecker, SingleLineValidator: model against implementation
+
+BATTERY_PATHS = (
+	'src/catapult/model/Seeded.h', 'src/catapult/model/Seeded.cpp', 'tests/catapult/validators/SeededValidatorTests.cpp',
+	'plugins/txes/seeded/src/observers/SeededObserver.cpp', 'plugins/txes/seeded/src/validators/SeededValidator.cpp', 'tests/TestHarness.h',
+	'tests/test/nodeps/Stress.h')
+SINGLE_LINE_BLOCKS = (
+	['\tfoo(', '\t\t\ta,', '\t\t\tb);', ''],
+	['\tauto x = bar(', '\t\t\tbaz(1), // note', '\t\t\tqux[2]);', 'int y;'],
+	['\tfoo(', '\t\t\t// comment', '\t\t\tb);'],
+	['\tfoo(', '\t\t\t{ a[1], b[2] },', '\t\t\tc);'],
+	['\tfoo(', '\t\t\t"str)ing",', "\t\t\t')');"],
+	['\tconstexpr auto Raw = R"(', 'text', ')";'],
+	['\tfoo(', '\t\t\t' + 'a' * 150 + ');'],
+	['\tfoo(', '\t\t\ta));', '\tbar;', '\tbaz(', '\t\t\tc);'],
+	['\touter(inner(', '\t\t\ta),', '\t\t\tb);'],
+)
+
+
+def format_groups(match):
+	if match is None:
+		return 'none'
+	return 'ok ' + ';'.join(f'{index}={sx(match.group(index))}' for index in range(0, (match.re.groups or 0) + 1) if index and match.group(index) is not None)
+
+
+def check_validator_models(ctx, entries, constants, tree_lines):
+	"""The Lean stripper, the capturing matcher and the models of MultiConditionChecker / SingleLineValidator against the real code."""
+	# pylint: disable=too-many-locals,too-many-branches
+	import itertools  # pylint: disable=import-outside-toplevel
+	import validation  # pylint: disable=import-error,import-outside-toplevel
+	if not ctx.driver:
+		return
+	witnesses = [entry['witness'] for entry in entries if entry['witness'].isascii() and '\n' not in entry['witness']]
+	# (a) strip_comments_and_strings: tree lines, witness lines in and around comments / literals, and EVERY string over the marker alphabet
+	small = [''.join(item) for size in range(0, ctx.scale(6, 7)) for item in itertools.product('/*"\'a ', repeat=size)]
+	decorated = [f'{left}{witness}{right}' for witness in witnesses[::3] for left, right in (('', ''), ('a "', '" b'), ('/* ', ' */ x'), ("'", "' // y"), ('x // ', ''))]
+	strip_lines = tree_lines + decorated + small
+	answers = ctx.driver.ask_many([f'strip {sx(line)}' for line in strip_lines])
+	for line, answer in zip(strip_lines, answers):
+		real = validation.strip_comments_and_strings(line)
+		ctx.count('strip:lines')
+		if answer != sx(real):
+			ctx.fail('corr', f'strip_comments_and_strings({line!r}): model differs from the implementation {real!r}', {'kind': 'strip', 'line': line, 'model': answer})
+		if validation.strip_comments_and_strings(real) != real:
+			ctx.fail('corr', f'strip_comments_and_strings is not idempotent on {line!r}: {real!r} -> {validation.strip_comments_and_strings(real)!r}', {'kind': 'strip', 'line': line})
+	ctx.case(('strip', len(strip_lines)), {'lines': len(strip_lines), 'exhaustive_up_to_length': ctx.scale(5, 6)})
+
+	# (b) the groups of the four patterns whose groups MultiConditionChecker reads
+	checker = validation.MultiConditionChecker()
+	probes = tree_lines[:ctx.scale(400, 3000)] + witnesses + ['\t' + witness for witness in witnesses] + [
+		'\tFoo(const Bar& bar);', '\tFoo(Foo& foo);', '\tCreateFoo(int a);', '\tResolvable(int a);', '\tFoo(int a, int b);', '\texplicit Foo(int a);',
+		'void Check(int a, ValidationResult value)', 'void Check(int a,  ValidationResult result)', 'f(a, ValidationResult value) g(b, ValidationResult x)',
+		'\tconst auto* pPacket = ionet::CoercePacket<Foo>(&packet);', '\tauto& x = CoercePacket<Foo>(&packet);', '\tconst auto* a = f(); auto* b = CoercePacket(p);',
+		'\tauto x = {', '\tstatic constexpr Foo::Bar baz = {', '\tconst std::vector vec = { 1 };', 'Foo foo = {']
+	for name, mode in (('validation_result', 'search'), ('missing_explicit_ctor', 'match'), ('coerce', 'search'), ('struct_assignment', 'match')):
+		pattern = getattr(checker, 'pattern_' + name, None)
+		if pattern is None:
+			continue
+		answers = ctx.driver.ask_many([f'captures {name} {mode} {sx(line)}' for line in probes])
+		for line, answer in zip(probes, answers):
+			real = format_groups(getattr(pattern, mode)(line))
+			ctx.count(f'captures:{name}')
+			if answer != real:
+				ctx.fail('corr', f're.{mode}({pattern.pattern!r}, {line!r}) groups: model {answer}, implementation {real}', {'kind': 'captures', 'name': name, 'line': line})
+	ctx.case(('captures', len(probes)), None)
+
+	# (c) a battery of lines that make the checks fire (every pattern's witness in several shapes) under paths of every kind
+	battery = []
+	for witness in witnesses:
+		battery += [witness, '\t' + witness, '\t' + witness + ';', '\tx ' + witness + ' // ' + witness, '\t// ' + witness, '\t"' + witness + '"']
+	for block in SINGLE_LINE_BLOCKS:
+		battery += block
+	battery += probes[-16:]
+	text = '\n'.join(battery) + '\n'
+	messages = constants['mccMessages']
+	for path in BATTERY_PATHS:
+		reports = []
+		for validator in (validation.SingleLineValidator(), checker):
+			validator.reset(path, lambda group, err: reports.append((group, err.lineno, err.kind)))
+			for number, line in enumerate(battery, 1):
+				validator.check(number, line)
+			validator.finalize()
+		real = sorted([f'singleLine:{lineno}' for group, lineno, _ in reports if 'singleLine' == group] + [
+			f'mcc[{kind[:160]}]:{lineno}' for group, lineno, kind in reports if 'multiConditionChecker' == group])
+		answer = ctx.driver.ask(f'lint {sx(path)} {sx(text)}')
+		model = [item for item in model_view(answer, entries, messages) if item.startswith(('singleLine', 'mcc['))]
+		ctx.count('validator-battery:lines', len(battery))
+		ctx.count('validator-battery:reports', len(real))
+		ctx.case(('battery', path), {'path': path, 'lines': len(battery), 'reports': len(real)})
+		if model != real:
+			difference = sorted(set(model) ^ set(real))[:6]
+			ctx.fail(
+				'corr', f'MultiConditionChecker / SingleLineValidator on the battery under {path}: model and implementation differ on {difference}',
+				{'kind': 'battery', 'path': path, 'difference': difference, 'lines': [battery[int(item.rsplit(":", 1)[1]) - 1] for item in difference]})
 
 
 # endregion
